@@ -58,12 +58,16 @@ where
         let mut sxy = T::zero();
         let mut syy = T::zero();
 
+        // correlation does not depend on the level: measuring every value from the oldest one
+        // keeps N*sxx - sx^2 from cancelling when the values are large compared with their spread
+        let base = self.q_vals.front().copied().unwrap_or_else(T::zero);
         for (i, v) in self.q_vals.iter().enumerate() {
             let count = T::from(i).expect("can convert");
-            sx = sx + *v;
+            let v = *v - base;
+            sx = sx + v;
             sy = sy + count;
             sxx = sxx + v.powi(2);
-            sxy = sxy + *v * count;
+            sxy = sxy + v * count;
             syy = syy + count.powi(2);
         }
         let window_len = T::from(self.window_len).expect("Can convert");
